@@ -412,12 +412,12 @@ Definition stmt_eqb (x y : stmt) : bool :=
 (* ------------------------------------------------------------------ tokenizer (string level) *)
 Local Open Scope char_scope.
 
-Definition c_le (a b : ascii) : bool := nat_of_ascii a <=? nat_of_ascii b.
+Definition c_le (a b : ascii) : bool := Nat.leb (nat_of_ascii a) (nat_of_ascii b).
 Definition is_digit (c : ascii) : bool := c_le "0" c && c_le c "9".
 Definition is_lower (c : ascii) : bool := c_le "a" c && c_le c "z".
 Definition is_upper (c : ascii) : bool := (c_le "A" c && c_le c "Z") || Ascii.eqb c "_".
 Definition is_alnum (c : ascii) : bool := is_digit c || is_lower c || is_upper c.
-Definition is_space (c : ascii) : bool := nat_of_ascii c <=? 32.
+Definition is_space (c : ascii) : bool := Nat.leb (nat_of_ascii c) 32.
 
 Fixpoint take_while (p : ascii -> bool) (s : string) : string * string :=
   match s with
@@ -449,7 +449,7 @@ Definition next_open (s : string) : bool :=
 
 Local Open Scope string_scope.
 
-(* symbolic names of the tokenizer (parser.py _token_*), longest first *)
+(* symbolic names of the tokenizer (the _token_ methods of parser.py), longest first *)
 Definition sym_table : list string :=
   [ "\=@="; "~=/=";
     "-->"; "=:="; "=\="; "=@="; "=.."; "@=<"; "@>="; "\=="; "~=="; "~=<"; "~>="; "*->";
